@@ -3,7 +3,7 @@
    cascade); L: the \N{...} table (quoted strings).  read_top is the token-level reader of
    Lit/Ctor.v: forms other than identifiers, numbers, dotted forms, keywords, strings, bracket
    strings, comments and whitespace are the single outcome ROther. *)
-From HyV Require Import Base.Text Gen.LitTables Lit.Strings Lit.StringsSpec Lit.BracketProofs Lit.Numeric Lit.NumericExt
+From HyV Require Import Base.Text Gen.LitTables Lit.Strings Lit.StringsSpec Lit.StringsBracket Lit.Numeric Lit.NumericExt
   Lit.Ctor Lit.CtorProofs.
 
 (* hy.models.Symbol(s) succeeds exactly when reading s yields that one symbol -- every string s. *)
